@@ -17,7 +17,7 @@ META = {
     "explanation": "the long-term predicate normalises to: no lot => False; else (event.timestamp - lot.timestamp).days >= country period, on the two "
     "transactions' own tz-aware datetimes (no .date(), no total_seconds, no tz stripping); every transaction timestamp comes from the parser that rejects naive "
     "values; each country plugin's period constant-folds to the statement's value (365 US/ES, unreachable for JP/IE, validated env value for generic); "
-    "every LONG/SHORT cell or key in the tree is computed from that one predicate (or the yearly line's stored flag), LONG on the true side.",
+    "every LONG/SHORT cell or key in the tree is computed from that one predicate (or the yearly line's stored flag), LONG on the true side; the yearly line a fraction is added to carries the flag computed from that same fraction.",
     "not_decided": "datetime subtraction semantics themselves (trusted), run-time values.",
     "assumptions": ["aware-datetime subtraction compares instants; timedelta.days is the floor in whole days", "timedelta.max.days == 999999999"],
 }
@@ -190,6 +190,52 @@ def run(rep: Report, tier: str) -> None:
                     continue
                 rep.violation(r, f.module, f.qualname, short(node), "the holding-period threshold is read outside GainLoss.is_long_term_capital_gains: a second long/short definition can disagree with the first", loc(node))
     rep.ok(r, "threshold read only by the predicate (and __str__/__repr__)", f"{n_sites} LONG/SHORT decision sites")
+    _check_yearly_flag(rep, m)
+
+
+def _check_yearly_flag(rep: Report, m) -> None:
+    """C05.e: the flag a yearly line stores is computed from each fraction on its own (a disposal split over lots on both sides of the threshold
+    contributes to a LONG line and to a SHORT line)."""
+    from ..symexec import SPath, SymExec
+
+    prog, norm = m.prog, m.norm
+    r = rep.rule("C05.e", "the yearly line a fraction is added to carries that fraction's own long/short flag (computed in the same iteration, for every fraction)", floor=1)
+    fi = prog.func("rp2.computed_data", "ComputedData._create_yearly_gain_loss_list")
+    rep.analysed(fi)
+    loops = [n for n in fi.node.body if isinstance(n, ast.For) and isinstance(n.target, ast.Name)]
+    if not loops:
+        raise AnalysisError("ComputedData._create_yearly_gain_loss_list: grouping loop not found")
+    group = loops[0]
+    gl_cls = prog.cls("rp2.gain_loss", "GainLoss")
+    g = ("sym", "gl")
+    assigned = {n.id for st in group.body for n in ast.walk(st) if isinstance(n, ast.Name) and isinstance(n.ctx, ast.Store)}
+    init = SPath()
+    init.vars[group.target.id] = (g, ("cls", gl_cls.fq))
+    se = SymExec(norm, norm.ctx_for(fi, subst_locals=False))
+    for v in sorted(assigned - {group.target.id}):
+        init.vars[v] = (("sym", f"{v}@previous_iteration"), se._declared.get(v, ("any",)))
+    want = norm.inline(prog.func(gl_cls.module, "GainLoss.is_long_term_capital_gains"), g, {}, Ctx(gl_cls.module, gl_cls))
+    n = 0
+    for p in se.run(group.body, init):
+        if p.exit != "fall":
+            continue
+        for st in p.stores():
+            key = st[2]
+            n += 1
+            flag = dict(key[2]).get("is_long_term_capital_gains") if key[0] == "new" else None
+            ok = flag is not None and tkey(flag) == tkey(want)
+            rep.check(
+                ok,
+                r,
+                fi.module,
+                fi.qualname,
+                "yearly key's flag = is_long_term_capital_gains() of the fraction being added",
+                f"on a path of the grouping loop the fraction is added under key {show(key)[:200]}, whose long/short flag is {show(flag)[:160] if flag is not None else 'not computed in this iteration (a key kept from an earlier fraction)'}; "
+                "expected the flag of this very fraction: a disposal split over a long-term and a short-term lot must feed a LONG and a SHORT line",
+                loc(st[5]),
+            )
+    if n == 0:
+        raise AnalysisError("ComputedData._create_yearly_gain_loss_list: no dictionary update found in the grouping loop")
 
 
 def _is_elapsed(t) -> bool:
